@@ -67,13 +67,15 @@ func newGenerateCommand() *cobra.Command {
 			}
 			defer watcher.Close()
 
-			completedChannel := make(chan error)
-			go dedupLoop(configOverrides, watcher, completedChannel)
-
+			// Start watching before the initial generation reads any file, so that
+			// a change made while it is running is not missed.
 			err = watcher.Add(".")
 			if err != nil {
 				log.Fatal().Err(err).Msg("")
 			}
+
+			completedChannel := make(chan error)
+			go dedupLoop(configOverrides, watcher, completedChannel)
 
 			err = <-completedChannel
 			if err != nil {
